@@ -4,7 +4,7 @@ From Coq Require Import Sorted Permutation.
 From RS Require Import Base BaseFacts Network NetSpec NetFacts Tour TourSpec TourStmts TourFacts TourValidFacts
   TourExactStmts TourExactFacts SchedObs Transition TransSpec TransStmts TransFacts TransFacts2 Schedule SchedInv
   SchedStruct SchedCostsFacts SchedListFacts SchedTransFacts SchedUnservedFacts SchedUsageFacts SchedToursFacts SchedExactFacts Swaps SwapsStmts2
-  PipelineSched RenderStmts NoPanicStmts.
+  PipelineSched RenderStmts NoPanicStmts LoadStmts LoadFacts SwapsFacts2 SchedFormsFacts SchedFormLimFacts SchedViolFacts.
 
 (** * generic helpers *)
 Lemma no_crash_ok {A} (r : res A) a : r = Ok a -> no_crash r.
@@ -1990,6 +1990,184 @@ Proof.
   eapply no_crash_ok. exact E.
 Qed.
 
+(** * [net_extra_b] holds of every network loaded from a valid instance with non-negative cost rates *)
+Definition params_costs_nonneg (p : params) : Prop :=
+  0 <= c_staff p /\ 0 <= c_service p /\ 0 <= c_maint p /\ 0 <= c_dh p /\ 0 <= c_idle p.
+
+Lemma planning_of_nn e l p : planning_of e l = Ok p -> 0 <= dur_sec_or p 0.
+Proof.
+  unfold planning_of. destruct (dt_diff l e) as [d| | |] eqn:E; cbn [bind]; try discriminate.
+  destruct d as [z|]; [|discriminate]. intros H. inversion H; subst. cbn [dur_sec_or].
+  destruct (dt_diff_nn _ _ _ E) as [Q|(z' & Q & Hz)]; [discriminate|]. inversion Q; subst z'.
+  unfold div_ceil. apply Z.mul_nonneg_nonneg; [apply Z.div_pos; lia|lia].
+Qed.
+
+Lemma trip_records_dist_nn i : valid_instance_b i = true -> forall s, In s (trip_records i) ->
+  dist_nonneg_b (st_dist s) = true.
+Proof.
+  intros V s H. destruct (valid_parts i V) as (_ & V2 & _).
+  unfold trip_records in H. apply in_flat_map in H. destruct H as (d & Hd & H).
+  apply in_flat_map in H. destruct H as (sg & Hs & H).
+  destruct (lookup_rseg i d sg) as [[r g]|] eqn:E; [|destruct H].
+  destruct H as [<-|[]]. apply lookup_in in E. destruct E as [E1 E2].
+  apply V2 in E1. destruct E1 as [T E1]. apply E1 in E2. cbn. apply Z.leb_le. lia.
+Qed.
+
+Lemma capped_dh_nn i p0 : valid_instance_b i = true ->
+  forallb (fun row => forallb (fun '(d, _) => dist_nonneg_b d) row) (capped_dh i p0) = true.
+Proof.
+  intros V. unfold valid_instance_b in V. cbv beta zeta in V. rewrite !andb_true_iff in V.
+  destruct V as [[[[_ V10] _] _] _].
+  unfold capped_dh. apply forallb_forall. intros row Hr. apply in_map_iff in Hr. destruct Hr as ([drow trow] & <- & Hin).
+  apply in_combine_l in Hin. rewrite forallb_forall in V10. specialize (V10 _ Hin). apply andb_true_iff in V10.
+  destruct V10 as [_ V10]. rewrite forallb_forall in V10.
+  apply forallb_forall. intros [d t] Hd. apply in_map_iff in Hd. destruct Hd as ([dm ts] & Q & Hin2). inversion Q; subst.
+  apply in_combine_l in Hin2. specialize (V10 _ Hin2). cbn. apply Z.leb_le in V10. apply Z.leb_le.
+  destruct (MAX_DISTANCE <? dm); [unfold MAX_DISTANCE; lia|lia].
+Qed.
+
+Theorem load_extra : forall i perm nw, valid_instance_b i = true -> params_costs_nonneg (i_params i) ->
+  load i perm = Ok nw -> net_extra_b nw = true.
+Proof.
+  intros i perm nw V (PC1 & PC2 & PC3 & PC4 & PC5) H. rewrite load_eq in H.
+  destruct (time_span_ok i V) as (p & E1 & P1). rewrite E1 in H. destruct p as [e0 l0]. cbn [bind] in H.
+  destruct (planning_pt _ P1) as (n0 & E2 & Hn0). cbn [fst snd] in E2. rewrite E2 in H. cbn [bind] in H.
+  destruct (all_trips_ok i V) as (trips & E3). rewrite E3 in H. cbn [bind] in H.
+  pose proof (all_trips_records i trips E3) as R.
+  destruct (planning_of (fst (Lspan i perm trips)) (snd (Lspan i perm trips))) as [p1| | |] eqn:E4; cbn [bind] in H; try discriminate.
+  inversion H; subst nw; clear H.
+  unfold net_extra_b. rewrite !andb_true_iff. split; [split; [split|]|].
+  - unfold costs_nonneg_b. cbn [nw_params Lnet nw_nservice]. rewrite !andb_true_iff, !Z.leb_le.
+    repeat split; try assumption.
+    + apply Z.mul_nonneg_nonneg; [unfold Lnservice; lia|exact PC1].
+    + unfold planning_sec. cbn [nw_planning Lnet]. eapply planning_of_nn. exact E4.
+  - unfold dists_nonneg_b. cbn [nw_nodes nw_dh Lnet]. apply andb_true_iff. split; [|apply capped_dh_nn; exact V].
+    apply forallb_forall. intros [id n] Hin. unfold Lnodes in Hin. rewrite !in_app_iff in Hin. destruct Hin as [Hin|[Hin|Hin]].
+    + apply Ldentries_in in Hin. destruct Hin as (d & [Q|Q]); cbn [snd] in Q; subst n; reflexivity.
+    + apply Lsvc_entries_in in Hin. destruct Hin as (sv & -> & Hs). apply Ltbt_in in Hs. rewrite R in Hs.
+      cbn [n_travel_dist]. apply (trip_records_dist_nn i V). exact Hs.
+    + apply Lm_entries_in in Hin. destruct Hin as (sl & -> & _). reflexivity.
+  - unfold depots_listed_b. cbn [nw_sdepots nw_edepots Lnet]. rewrite !andb_true_iff. split; [split|].
+    + apply forallb_forall. intros d Hd. unfold Lsrt in Hd. apply sort_by_in in Hd.
+      unfold Lsdeps in Hd. apply in_map_iff in Hd. destruct Hd as ([[dp sd] en] & <- & Hin).
+      rewrite (Lnd i perm trips (Len n0) sd (NStart {| dn_depot := dp_idx dp; dn_loc := dp_loc dp |}) p1); [reflexivity|].
+      unfold Lnodes. apply in_or_app. left. unfold Ldentries. apply in_flat_map. exists (dp, sd, en). split; [exact Hin|].
+      left. reflexivity.
+    + apply forallb_forall. intros d Hd. unfold Lsrt in Hd. apply sort_by_in in Hd.
+      unfold Ledeps in Hd. apply in_map_iff in Hd. destruct Hd as ([[dp sd] en] & <- & Hin).
+      rewrite (Lnd i perm trips (Len n0) en (NEnd {| dn_depot := dp_idx dp; dn_loc := dp_loc dp |}) p1); [reflexivity|].
+      unfold Lnodes. apply in_or_app. left. unfold Ldentries. apply in_flat_map. exists (dp, sd, en). split; [exact Hin|].
+      right. left. reflexivity.
+    + unfold Lsrt. rewrite sort_by_length, Ledeps_eq, map_length, seq_length. unfold Ldepots. rewrite app_length. cbn [length].
+      destruct (length (Ldepots0 i perm trips) + 1)%nat eqn:Q; [lia|reflexivity].
+  - unfold nodes_coverable_b. apply andb_true_iff. split.
+    + cbn [nw_nodes Lnet]. apply forallb_forall. intros [id n] Hin. unfold Lnodes in Hin. rewrite !in_app_iff in Hin.
+      destruct Hin as [Hin|[Hin|Hin]].
+      * apply Ldentries_in in Hin. destruct Hin as (d & [Q|Q]); cbn [snd] in Q; subst n; reflexivity.
+      * rewrite orb_true_iff. right. apply mem_nid_in. unfold coverable_nodes. apply in_or_app. left.
+        apply (Permutation_in _ (Permutation_sym (Lall_service i perm trips (Len n0) p1))).
+        unfold Lsvc_entries in Hin. apply in_combine_l in Hin. exact Hin.
+      * rewrite orb_true_iff. right. apply mem_nid_in. unfold coverable_nodes. apply in_or_app. right.
+        cbn [nw_maint Lnet]. unfold Lsrt. apply sort_by_in. unfold Lm_entries in Hin. apply in_combine_l in Hin. exact Hin.
+    + apply forallb_forall. intros ty Hty. apply forallb_forall. intros n Hn.
+      change (type_ids (Lnet i perm trips (Len n0) p1)) with (tids i) in Hty.
+      rewrite (Lservice_nodes i perm trips (Len n0) p1 ty Hty) in Hn. unfold Lsrt in Hn. apply sort_by_in in Hn.
+      apply Lsvc_list_in in Hn. apply mem_nid_in. unfold coverable_nodes. apply in_or_app. left.
+      apply (Permutation_in _ (Permutation_sym (Lall_service i perm trips (Len n0) p1))). exact Hn.
+Qed.
+
+(** * The statements of A2 / A3 as written are false of arbitrary network records: [net_fine] does not say that
+     the depot listings hold depots. Witness: the loaded network nwC with its end-depot listing emptied (and the end
+     depots taken out of the per-type maps, so that [net_ok_b] still holds): improve_depots_of_tour turns the [Err] of
+     find_best_end_depot ("no end depot") into a panic. This is an artefact of quantifying over network records, not a
+     defect of the code: [load] always lists the overflow depot ([load_extra]). *)
+Definition drop_ed (l : sorted_nodes) : sorted_nodes :=
+  filter (fun k => match snd k with ED _ => false | _ => true end) l.
+Definition nwBad : network := Eval vm_compute in
+  {| nw_nodes := nw_nodes nwC; nw_depots := nw_depots nwC; nw_overflow := nw_overflow nwC; nw_service := nw_service nwC;
+     nw_maint := nw_maint nwC; nw_sdepots := nw_sdepots nwC; nw_edepots := [];
+     nw_all_by_start := nw_all_by_start nwC;
+     nw_type_by_start := map (fun '(t, l) => (t, drop_ed l)) (nw_type_by_start nwC);
+     nw_type_by_end := map (fun '(t, l) => (t, drop_ed l)) (nw_type_by_end nwC);
+     nw_params := nw_params nwC; nw_nlocs := nw_nlocs nwC; nw_dh := nw_dh nwC; nw_types := nw_types nwC;
+     nw_nservice := nw_nservice nwC; nw_planning := nw_planning nwC |}.
+Definition sB0 : schedule := Eval vm_compute in get_ok (empty_schedule nwBad) s_dflt.
+Definition sB1 : schedule := Eval vm_compute in
+  match spawn_vehicle_for_path nwBad sB0 0 [SD 0; SV 4; ED 1] with Ok (s, _) => s | _ => s_dflt end.
+Definition csB : list cand := Eval vm_compute in get_ok (candidates nwBad sB1) [].
+
+Lemma nwBad_flags : net_ok_b nwBad = true /\ dists_finite_b nwBad = true /\ dh_dists_finite_b nwBad = true /\
+  net_extra_b nwBad = false /\ depots_listed_b nwBad = false.
+Proof. vm_compute. auto. Qed.
+Lemma nwBad_nodup : NoDup (coverable_nodes nwBad).
+Proof.
+  assert (E : coverable_nodes nwBad = [SV 4; SV 5; SV 6; SV 7; MT 8]) by (vm_compute; reflexivity). rewrite E.
+  repeat (constructor; [cbn [In]; intros Q; repeat (destruct Q as [Q|Q]; [discriminate Q|]); exact Q|]). constructor.
+Qed.
+Lemma nwBad_maint : forall m, In m (nw_maint nwBad) -> is_maint (nd nwBad m) = true.
+Proof. intros m Hm. vm_compute in Hm. destruct Hm as [<-|[]]. vm_compute. reflexivity. Qed.
+Lemma nwBad_fine : net_fine nwBad.
+Proof. split; [apply nwBad_flags|]. split; [exact nwBad_maint|exact nwBad_nodup]. Qed.
+Lemma sB0_ok : empty_schedule nwBad = Ok sB0.
+Proof. vm_compute. reflexivity. Qed.
+Lemma sB1_ok : spawn_vehicle_for_path nwBad sB0 0 [SD 0; SV 4; ED 1] = Ok (sB1, Veh 0).
+Proof. vm_compute. reflexivity. Qed.
+Lemma sB1_wreachable : wreachable nwBad sB1.
+Proof.
+  eapply wr_step; [apply wr_empty; exact sB0_ok|]. eapply ws_spawn; [|exact sB1_ok].
+  split; [discriminate|]. split; [|vm_compute; reflexivity].
+  intros a b Hin. cbn in Hin. destruct Hin as [E|[E|[]]]; inversion E; subst; vm_compute; reflexivity.
+Qed.
+Lemma sB1_good : Good nwBad sB1.
+Proof.
+  pose proof sB1_wreachable as W. pose proof (wreachable_vreachable _ _ W) as WV.
+  pose proof (wreachable_dreachable _ _ W) as WD. pose proof (wreachable_reachable _ _ W) as WR.
+  destruct nwBad_flags as (OK & DF & DH & _).
+  assert (MS : forall n, In n (nw_maint nwBad) -> is_service (nd nwBad n) = false).
+  { intros n Hn. apply nwBad_maint in Hn. destruct (nd nwBad n); try discriminate; reflexivity. }
+  constructor.
+  - apply (vreachable_tours nwBad OK sB1 WV).
+  - apply reachable_listing_under_distinct. exact WD.
+  - apply (vreachable_forms_under_maint_listed nwBad OK nwBad_nodup nwBad_maint sB1 WV).
+  - apply (reachable_form_limits nwBad sB1 WR).
+  - apply (reachable_usage nwBad sB1 WR).
+  - apply reachable_trans_under_distinct. exact WD.
+  - apply (vreachable_tours_exact nwBad OK DF DH sB1 WV).
+  - apply (reachable_costs nwBad sB1 WR).
+  - apply (reachable_unserved nwBad nwBad_nodup MS sB1 WR).
+  - apply (reachable_viol nwBad sB1 WR).
+Qed.
+Lemma sB1_room : SpawnRoom nwBad sB1.
+Proof.
+  intros ty first Hty. unfold find_best_start_depot.
+  match goal with |- context [find ?f ?l] => destruct (find f l) as [d|] eqn:E end; [exists d; reflexivity|].
+  exfalso. pose proof (find_none _ _ E (SD 0)) as Q. unfold start_depots_sorted_by_distance_to in Q.
+  rewrite sort_by_in in Q. vm_compute in Hty. destruct Hty as [<-|[]].
+  assert (C : can_depot_spawn nwBad (s_usage sB1) (SD 0) 0 = true) by (vm_compute; reflexivity).
+  rewrite Q in C; [discriminate|]. vm_compute. auto.
+Qed.
+
+Theorem improve_and_recompute_no_crash_refuted_nwBad : ~ stmt_improve_and_recompute_no_crash nwBad.
+Proof.
+  intros H. destruct (H nwBad_fine sB1 [Veh 0] sB1_good sB1_room) as [P _].
+  - constructor; [intros []|constructor].
+  - intros v [<-|[]]. vm_compute. reflexivity.
+  - apply P. vm_compute. reflexivity.
+Qed.
+Theorem improve_and_recompute_no_crash_refuted : ~ (forall nw, stmt_improve_and_recompute_no_crash nw).
+Proof. intros H. exact (improve_and_recompute_no_crash_refuted_nwBad (H nwBad)). Qed.
+
+Theorem apply_cand_no_crash_refuted_nwBad : ~ stmt_apply_cand_no_crash nwBad.
+Proof.
+  intros H. destruct nwBad_flags as (_ & DF & DH & _).
+  destruct (H nwBad_fine DF DH sB1 csB (CHitch (SV 5) (Veh 0)) sB1_good sB1_room) as [P _].
+  - vm_compute. reflexivity.
+  - vm_compute. tauto.
+  - apply P. vm_compute. reflexivity.
+Qed.
+Theorem apply_cand_no_crash_refuted : ~ (forall nw, stmt_apply_cand_no_crash nw).
+Proof. intros H. exact (apply_cand_no_crash_refuted_nwBad (H nwBad)). Qed.
+
 Theorem candidates_no_crash : forall nw, stmt_candidates_no_crash nw.
 Proof.
   intros nw NF s G. destruct (candidates_total nw NF s G) as (cs & E). eapply no_crash_ok. exact E.
@@ -2001,3 +2179,6 @@ Print Assumptions apply_cand_simple_no_crash_under_extra.
 Print Assumptions improve_and_recompute_no_crash_under_room.
 Print Assumptions improve_and_recompute_no_crash_under_extra_single.
 Print Assumptions improve_and_recompute_total.
+Print Assumptions load_extra.
+Print Assumptions improve_and_recompute_no_crash_refuted.
+Print Assumptions apply_cand_no_crash_refuted.
